@@ -207,6 +207,15 @@ def proof_check_streams(pid, name, extra=()):
     return proof
 
 
+def add_ops_table(proof, gens):
+    """the theorems of coq/gen_theorems/OpsTable.v (value-layer impl bodies translated by tools/gen_ops.py = operator table)"""
+    if gens.get("ops_error"):
+        proof["ok"] = False
+        proof["problems"].append("translator tools/gen_ops.py cannot read the current source: " + gens["ops_error"])
+    proof["translated_impls"] = len(gens.get("ops") or [])
+    return proof
+
+
 def strip_coq_comments(s):
     out, depth, i = [], 0, 0
     while i < len(s):
@@ -246,7 +255,7 @@ def gen_dir():
 
 def gen_sources():
     """Translators for tabular source, regenerated from the repository on every run."""
-    import gen_constants, gen_accessors, gen_formulas, gen_streams, rustmini
+    import gen_constants, gen_accessors, gen_formulas, gen_streams, gen_ops, rustmini
     with Lock("gen" + repo_tag()):
         items, n_all = gen_constants.main(REPO, gen_dir())
         accs, ctors = gen_accessors.main(REPO, gen_dir())
@@ -266,8 +275,15 @@ def gen_sources():
             try: os.remove(os.path.join(gen_dir(), "GenStreams.v"))
             except OSError: pass
             sinfo, serr = None, "%s: %s" % (type(ex).__name__, ex)
+        try:
+            oinfo = [t["what"] for t in gen_ops.main(REPO, gen_dir(), {it[0]: (int(it[1]), int(it[2])) for it in items})]
+            oerr = None
+        except (rustmini.ParseError, KeyError, IndexError) as ex:
+            try: os.remove(os.path.join(gen_dir(), "GenOps.v"))
+            except OSError: pass
+            oinfo, oerr = None, "%s: %s" % (type(ex).__name__, ex)
     return {"constants": items, "n_pub_const": n_all, "accessors": accs, "ctors": ctors, "formulas": flines, "formulas_error": ferr,
-            "streams": sinfo, "streams_error": serr}
+            "streams": sinfo, "streams_error": serr, "ops": oinfo, "ops_error": oerr}
 
 
 def compile_gen_theorems(name, extra_gen=()):
